@@ -228,6 +228,8 @@ class Interp:
             return True
         if isinstance(v, SDict):
             raise Unsupported("truth of symbolic dict")
+        if isinstance(v, (_smap().SMap, _smap().SColl)):
+            raise Unsupported("truth of symbolic map / collection")
         if v is None:
             return False
         if isinstance(v, Sym):
@@ -326,6 +328,16 @@ class Interp:
             return False
         if isinstance(a, (SDict,)) or isinstance(b, (SDict,)):
             raise Unsupported("eq on symbolic dict")
+        if isinstance(a, _smap().SMap) and isinstance(b, _smap().SMap):
+            if a.oid != b.oid:
+                return False
+            return _smap().unchanged_except(self, a, b, [])
+        if isinstance(a, _smap().SColl) and isinstance(b, _smap().SColl):
+            if a.oid != b.oid:
+                return False
+            if len(a.members) != len(b.members):
+                return False
+            return _and([_and([_z(pa) == _z(pb), self.identical(va, vb)]) for (pa, va), (pb, vb) in zip(a.members, b.members)])
         try:
             return bool(a == b)
         except Exception as e:  # pragma: no cover
@@ -567,6 +579,8 @@ class Interp:
             if isinstance(a, SInt) and isinstance(b, (SInt, int)) or isinstance(b, SInt) and isinstance(a, int):
                 raise Unsupported("`is` on symbolic ints")
             return a is b
+        if isinstance(a, (SObj, SFuture)) and isinstance(b, (SObj, SFuture)):
+            return a is b or (a.oid == b.oid)
         return a is b
 
     def contains(self, container, item):
@@ -574,6 +588,10 @@ class Interp:
             container = self.unwrap_opt(container, "container")
         if isinstance(container, SDict):
             return z3.Select(container.has, self.dict_key_term(container, item))
+        if isinstance(container, _smap().SMap):
+            return _smap().contains(self, container, item)
+        if isinstance(container, _smap().SColl):
+            return _smap().coll_contains(self, container, item)
         if isinstance(container, SBytes) or (isinstance(container, (bytes, bytearray)) and isinstance(item, Sym)):
             ct = bytes_term(container)
             if is_byteslike(item):
@@ -738,6 +756,10 @@ class Interp:
             return BoundMethod(("int", name), obj, f"int.{name}")
         if isinstance(obj, SDict):
             return BoundMethod(("sdict", name), obj, f"dict.{name}")
+        if isinstance(obj, _smap().SMap):
+            return BoundMethod(("smap", name), obj, f"dict.{name}")
+        if isinstance(obj, _smap().SColl):
+            return BoundMethod(("scoll", name), obj, f"list.{name}")
         if isinstance(obj, SFunc):
             if name == "__name__":
                 return obj.node.name
@@ -813,6 +835,8 @@ class Interp:
         raise Unsupported(f"setattr on concrete {type(obj).__name__} in symbolic mode")
 
     frame_check = None
+    frame_check_map = None
+    entry_old_view = None
 
     # ------------------------------------------------------------------
     # subscripts
@@ -865,6 +889,8 @@ class Interp:
             return SInt(bv2int(t[i]))
         if isinstance(obj, SDict):
             return self.sdict_get(obj, idx, raise_keyerror=True)
+        if isinstance(obj, _smap().SMap):
+            return _smap().getitem(self, obj, idx)
         if isinstance(obj, (tuple, list)) and isinstance(idx, Sym):
             if isinstance(idx, SOpt):
                 idx = self.unwrap_opt(idx, "index")
@@ -899,6 +925,8 @@ class Interp:
             obj = self.unwrap_opt(obj, "subscripted value")
         if isinstance(obj, SDict):
             return self.sdict_set(obj, idx, value)
+        if isinstance(obj, _smap().SMap):
+            return _smap().setitem(self, obj, idx, value)
         if isinstance(obj, (dict, list)):
             if isinstance(idx, Sym) and isinstance(obj, dict):
                 raise Unsupported("symbolic key into concrete dict store")
@@ -1582,6 +1610,12 @@ def env_lookup_default(env, name, default=None):
         return default
 
 
+def _smap():
+    from . import smap
+
+    return smap
+
+
 def _is_type_checking(test):
     return isinstance(test, ast.Name) and test.id == "TYPE_CHECKING"
 
@@ -1633,7 +1667,7 @@ def _kind(v):
 
 
 def _has_sym(v, depth=0):
-    if isinstance(v, (Sym, SObj, SFuture, SDict)):
+    if isinstance(v, (Sym, SObj, SFuture, SDict)) or type(v).__name__ in ("SMap", "SColl", "View"):
         return True
     if depth > 4:
         return False
